@@ -273,7 +273,7 @@ func (g *generator) generateFlow(file *file, f *flow, w io.Writer, addImports ma
 	if g.sourceMapped {
 		// Annotate with line directives after we're done generating code.
 		// Get the expression's End position and find the associated line.
-		endPos := g.fset.Position(f.End())
+		endPos := g.fset.PositionFor(f.End(), false /* adjusted */)
 		// -1 because this is a line above the closing }().
 		fmt.Fprintf(w, "/*line %v:%d*/", filepath.Base(f.PosInfo.File), endPos.Line-1)
 	}
@@ -373,7 +373,10 @@ func (g *generator) printPredicateHash(p *predicate) string {
 }
 
 func (g *generator) posInfo(n ast.Node) *PosInfo {
-	pos := g.fset.Position(n.Pos())
+	// The position in the file itself, ignoring //line directives of the
+	// source: it names the variables that hold the user's expressions,
+	// which must differ for different expressions.
+	pos := g.fset.PositionFor(n.Pos(), false /* adjusted */)
 	posInfo := &PosInfo{
 		File:   filepath.Join(g.pkg.Path(), filepath.Base(pos.Filename)),
 		Line:   pos.Line,
